@@ -121,6 +121,53 @@ Theorem C04_nav_bounded_tree :
 Proof. exact nav_bounded_tree. Qed.
 Print Assumptions C04_nav_bounded_tree.
 
+(* HISTORIES of acquire_priv calls on one connection (the device's behaviour may differ from call to
+   call).  Every call of every history, whatever the earlier calls ended in, ends within
+   factor*|levels|+1 attempts OF ITS OWN, never out of fuel. *)
+Theorem C04_calls_bounded :
+  forall (N factor : nat) (stop : bool) (parent : nat -> option nat) (auth : nat -> bool)
+         (nbrs matches : nat -> list nat) (D : Type) (dmode : D -> nat)
+         (cs : list (call D)) (belief : option nat) (d : D),
+    Forall (fun r : outcome * option nat * D * list line =>
+              let '(o, _, _, tr) := r in
+              o <> OutOfFuel /\ length tr <= factor * N + 1 /\
+              (o = Reached \/ o = PrivilegeError \/ o = AuthFailed \/ o = Timeout \/ o = Crash))
+           (acquire_calls N factor stop parent auth nbrs matches D dmode cs belief d).
+Proof. exact calls_bounded. Qed.
+Print Assumptions C04_calls_bounded.
+
+(* ... and a call during which the device cooperates reaches its target after ANY history (failed calls
+   included), by exactly the route from where the device is: the hypotheses of C04_nav_reaches are asked
+   of the LAST call's device only, the device must be at the prompt of a level matched by that level only. *)
+Theorem C04_nav_history_reaches :
+  forall (N factor : nat) (stop : bool) (parent : nat -> option nat) (auth : nat -> bool)
+         (nbrs matches : nat -> list nat) (D : Type) (dmode : D -> nat) (dline : D -> line -> D * reply)
+         (depth : nat -> nat) (root : nat),
+    (forall n p : nat, parent n = Some p -> depth n = S (depth p)) ->
+    (forall a b : nat, In b (nbrs a) <-> parent a = Some b \/ parent b = Some a) ->
+    (forall x : nat, valid parent depth root x -> depth x < N) ->
+    1 <= factor ->
+    (forall x : nat, valid parent depth root x -> x < N) ->
+    (forall m : nat, valid parent depth root m -> In m (matches m)) ->
+    (forall m c : nat, parent c = Some m -> matches m = [m]) ->
+    forall Inv : D -> Prop,
+    (forall d : D, Inv d -> exists d' : D, dline d LRet = (d', RPrompt) /\ dmode d' = dmode d /\ Inv d') ->
+    (forall (d : D) (p : nat), Inv d -> parent (dmode d) = Some p ->
+       exists d' : D, deescalate D dline (dmode d) d = (d', None) /\ dmode d' = p /\ Inv d') ->
+    (forall (d : D) (x : nat), Inv d -> parent x = Some (dmode d) ->
+       exists d' : D, escalate stop parent auth matches D dmode dline x d = (d', None) /\ dmode d' = x /\ Inv d') ->
+    forall (cs : list (call D)) (belief0 : option nat) (d0 : D) (src dst : nat),
+      let st := calls_state N factor stop parent auth nbrs matches D dmode cs belief0 d0 in
+      valid parent depth root src -> valid parent depth root dst -> dst < N ->
+      Inv (snd st) -> dmode (snd st) = src -> matches src = [src] ->
+      exists d' : D,
+        acquire_calls N factor stop parent auth nbrs matches D dmode (cs ++ [(dline, dst)]) belief0 d0 =
+          acquire_calls N factor stop parent auth nbrs matches D dmode cs belief0 d0
+          ++ [(Reached, Some dst, d', route parent depth (2 * N) src dst)] /\
+        dmode d' = dst /\ length (route parent depth (2 * N) src dst) + 1 <= N.
+Proof. exact nav_history_reaches. Qed.
+Print Assumptions C04_nav_history_reaches.
+
 (* Refusing devices, partial: with unambiguous prompts a normal return means the device IS in the
    target, for every device.  The full statement (any classification containing the mode) is
    refuted: two levels sharing a prompt + a refused deescalate => normal return in the wrong level. *)
@@ -188,6 +235,18 @@ Theorem C04_core_platforms_stale_belief :
   forallb (stale_ok gen_factor gen_stop) gen_platforms = true.
 Proof. vm_compute. reflexivity. Qed.
 Print Assumptions C04_core_platforms_stale_belief.
+
+(* every generated table, byte-level simulated device: call 1 from any level to any target under the 5
+   secondary-password situations (device giving 3 password attempts; 1 attempt for the rejected ones) or
+   under every single refused transition (password right / not asked) - whatever it ends in, within the
+   bound -, then call 2 to any target with the device cooperating and the right secret: whenever call 1
+   FAILED and left the device at the prompt of a level matched by that level only (no dialogue pending),
+   call 2 ends in its target by exactly the route from where the device is, the device log extended by
+   exactly the route's lines *)
+Theorem C04_core_platforms_history :
+  forallb (history_ok gen_factor gen_stop) gen_platforms = true.
+Proof. vm_compute. reflexivity. Qed.
+Print Assumptions C04_core_platforms_history.
 
 (* the premises of C04_nav_reaches_table that are about the source: the loop-bound factor; every
    generated table is a tree, with the observed set order and the 'identical pattern text'
